@@ -24,6 +24,10 @@ func C08(ctx *core.Ctx, r *core.Report) {
 	// Find walks with requests marked as navigation; every read filter lets those through
 	c07NavigationExempt(ctx, r, registeredConstraints(ctx, r))
 	c08CursorClimbs(ctx, r)
+	c07TargetBeforeUse(ctx, r)
+	c08KeyOrderFollowsKeyStatement(ctx, r)
+	c08WhereNeedsBase(ctx, r)
+	borrowFrom(ctx, r, "C10", C10, "lossy-convert")
 	c08FoundPathContinuesSelection(ctx, r)
 	c08NavigationBeforeState(ctx, r)
 	c08KeyTextVerbatim(ctx, r)
